@@ -319,6 +319,7 @@ type CR3Opts struct {
 	Preview  []byte
 	Surround bool // random extra boxes inside moov / the Canon uuid / after the standard ones
 	Use64    bool // allow 64-bit box headers
+	Tail     int  // 0: mdat last (as cameras write it); 1: no mdat (the last metadata box ends the stream); 2: mdat before the xpacket/preview uuid boxes
 }
 
 func randBox(l *core.Lane) []byte {
@@ -397,6 +398,14 @@ func DrawCR3(l *core.Lane, o CR3Opts) *CR3 {
 		c.CMTOff[cp.idx] = canonPayload + cp.rel
 		c.Map = append(c.Map, FieldSpan{"cmt.size", canonPayload + cp.rel - 8, 4})
 	}
+	mdat := func() {
+		s := len(out)
+		out = append(out, Box("mdat", ScreenTIFF(l.Sub().Bytes(64+l.Intn(600))))...)
+		c.Top = append(c.Top, Span{"mdat", s, len(out)})
+	}
+	if o.Tail == 2 {
+		mdat()
+	}
 	// --- uuid xpacket
 	if o.XMP != nil {
 		s := len(out)
@@ -420,9 +429,12 @@ func DrawCR3(l *core.Lane, o CR3Opts) *CR3 {
 		out = append(out, randBox(l)...)
 		c.Top = append(c.Top, Span{"extra", s, len(out)})
 	}
-	s := len(out)
-	out = append(out, Box("mdat", ScreenTIFF(l.Sub().Bytes(64+l.Intn(600))))...)
-	c.Top = append(c.Top, Span{"mdat", s, len(out)})
+	if o.Tail == 0 {
+		mdat()
+	}
+	for _, t := range c.Top {
+		c.Map = append(c.Map, FieldSpan{"end:" + t.Type, t.End, 0})
+	}
 	c.Bytes = out
 	return c
 }
@@ -520,6 +532,10 @@ func DrawHEIF(l *core.Lane, tiff []byte, surround bool) *HEIF {
 	if surround && l.Bool() {
 		out = append(out, ScreenTIFF(l.Sub().Bytes(l.Intn(300)))...)
 	}
+	for _, t := range h.Top {
+		h.Map = append(h.Map, FieldSpan{"box.size:" + t.Type, t.Start, 4}, FieldSpan{"end:" + t.Type, t.End, 0})
+	}
+	h.Map = append(h.Map, FieldSpan{"end:exifitem", exifOff + len(item), 0})
 	h.Bytes = out
 	return h
 }
